@@ -215,6 +215,26 @@ func (re *rangeEval) eval1(v ssa.Value) ival {
 			if obj := calleeObj(&call.Call); isFunc(obj, "time", "Time.Zone") && x.Index == 1 {
 				return rng(-86399, 86399) // |UTC offset| < 24 h (time package invariant for real zones)
 			}
+			if obj := calleeObj(&call.Call); obj != nil && obj.Pkg() != nil && obj.Pkg().Path() == "time" {
+				switch funcLocalName(obj) {
+				case "Time.Date": // year, month, day
+					switch x.Index {
+					case 0:
+						return rng(0, 9999) // assumption: records are stamped with time.Now()
+					case 1:
+						return rng(1, 12)
+					case 2:
+						return rng(1, 31)
+					}
+				case "Time.Clock": // hour, minute, second
+					switch x.Index {
+					case 0:
+						return rng(0, 23)
+					case 1, 2:
+						return rng(0, 59)
+					}
+				}
+			}
 		}
 	case *ssa.Call:
 		if obj := calleeObj(&x.Call); obj != nil && obj.Pkg() != nil && obj.Pkg().Path() == "time" {
